@@ -1,1 +1,630 @@
-//! C26: not implemented yet.
+//! C26 — Server cookies are confidential, tamper-evident and rotate on schedule.
+//!
+//! Engine E-SEQ (explicit-state search over the real `KeySetProvider`) + positional sweeps.
+//!
+//! (a) For every history length h and every start (fresh provider; a one-key provider whose
+//!     key-id offset is u32::MAX-d, d = 0..=h+2, so the id wrap falls into every phase of
+//!     filling the window and into the steady state) all sequences over
+//!     {issue(AES-SIV-CMAC-256), issue(AES-SIV-CMAC-512), rotate} are explored breadth first to
+//!     the fixpoint of the abstract key (rotation count saturated at h+2, number of keys,
+//!     id offset while the id window touches the wrap, set of (age saturated at h+2,
+//!     algorithm) of the outstanding cookies). After every rotation (thorough: after EVERY
+//!     transition) every outstanding cookie is decoded by the real `KeySet::decode_cookie`
+//!     and compared with the reference model, after an issue the cookies of the current
+//!     rotation; cookies made by an independent key set with the same ids must fail.
+//! (b) every byte of a cookie (every key age 0..=h, both algorithms, set straddling the id
+//!     wrap or not) xor every single-bit mask (thorough: every non-zero byte value), and
+//!     every proper prefix of the cookie.
+//! (c) session-key grid: every (algorithm, s2c pattern, c2s pattern) round trip.
+//!
+//! Reference model (from the statement only): a provider started with key id `id0` has,
+//! after r rotations, newest key id `id0 + r (mod 2^32)`; a cookie issued at rotation r0 is
+//! valid at rotation r iff r - r0 <= h, and then decodes to exactly the algorithm and the two
+//! session keys it was made from; new cookies carry the newest id in their first 4 bytes
+//! (observable on the wire: the id field is what selects the key at decode time).
+use std::collections::BTreeSet;
+
+use super::common::{self, Ctx};
+use crate::keyset::verif_probe::gi as probe;
+use crate::keyset::{DecodedServerCookie, KeySetProvider};
+use crate::nts::AeadAlgorithm;
+use crate::packet::{AesSivCmac256, AesSivCmac512, Cipher};
+
+// ---------------------------------------------------------------------------------
+// session keys
+// ---------------------------------------------------------------------------------
+
+const NPAT: u8 = 5;
+
+/// Deterministic session-key material: `pat` selects the byte pattern, `salt` makes the two
+/// directions differ for the patterns that are not constant.
+pub(super) fn key_material(alg: u8, pat: u8, salt: u8) -> Vec<u8> {
+    let n = if alg == 0 { 32 } else { 64 };
+    (0..n)
+        .map(|i| match pat {
+            0 => 0x00,
+            1 => 0xff,
+            2 => (i as u8).wrapping_add(salt.wrapping_mul(64)),
+            3 => 0xa5 ^ (i as u8).wrapping_mul(37) ^ salt,
+            _ => {
+                // splitmix-style bytes
+                let mut z = (i as u64 + 1).wrapping_mul(0x9e3779b97f4a7c15) ^ ((salt as u64) << 32) ^ alg as u64;
+                z = (z ^ (z >> 30)).wrapping_mul(0xbf58476d1ce4e5b9);
+                (z >> 24) as u8
+            }
+        })
+        .collect()
+}
+
+pub(super) fn mk_cookie(alg: u8, s2c: &[u8], c2s: &[u8]) -> DecodedServerCookie {
+    if alg == 0 {
+        DecodedServerCookie {
+            algorithm: AeadAlgorithm::AeadAesSivCmac256,
+            s2c: Box::new(AesSivCmac256::try_from(s2c).expect("32 bytes")),
+            c2s: Box::new(AesSivCmac256::try_from(c2s).expect("32 bytes")),
+        }
+    } else {
+        DecodedServerCookie {
+            algorithm: AeadAlgorithm::AeadAesSivCmac512,
+            s2c: Box::new(AesSivCmac512::try_from(s2c).expect("64 bytes")),
+            c2s: Box::new(AesSivCmac512::try_from(c2s).expect("64 bytes")),
+        }
+    }
+}
+
+pub(super) fn alg_of(a: AeadAlgorithm) -> u8 {
+    match a {
+        AeadAlgorithm::AeadAesSivCmac256 => 0,
+        AeadAlgorithm::AeadAesSivCmac512 => 1,
+        AeadAlgorithm::Unknown(_) => 2,
+    }
+}
+
+#[derive(Clone)]
+pub(super) struct Issued {
+    pub bytes: Vec<u8>,
+    pub alg: u8,
+    pub s2c: Vec<u8>,
+    pub c2s: Vec<u8>,
+    pub rot: u64, // rotation count at which it was issued
+}
+
+#[derive(Clone, Copy, PartialEq, Eq, Debug)]
+pub(super) enum Dec {
+    Same,
+    Differs,
+    Rejected,
+    Panic,
+}
+
+pub(super) fn decode_vs(prov: &KeySetProvider, bytes: &[u8], alg: u8, s2c: &[u8], c2s: &[u8]) -> (Dec, String) {
+    let ks = prov.get();
+    match common::catch(|| ks.decode_cookie(bytes)) {
+        Err(p) => (Dec::Panic, p),
+        Ok(Err(_)) => (Dec::Rejected, String::new()),
+        Ok(Ok(d)) => {
+            if alg_of(d.algorithm) == alg && d.s2c.key_bytes() == s2c && d.c2s.key_bytes() == c2s {
+                (Dec::Same, String::new())
+            } else {
+                (Dec::Differs, format!("alg {:?}", d.algorithm))
+            }
+        }
+    }
+}
+
+fn contains(hay: &[u8], needle: &[u8]) -> bool {
+    !needle.is_empty() && hay.windows(needle.len()).any(|w| w == needle)
+}
+
+// ---------------------------------------------------------------------------------
+// (a) explicit-state search
+// ---------------------------------------------------------------------------------
+
+#[derive(Clone, Copy, Debug)]
+struct Cfg {
+    h: usize,
+    /// None: `KeySetProvider::new(h)`; Some(o): one random key, id_offset o, primary 0
+    start: Option<u32>,
+}
+
+impl Cfg {
+    fn id0(&self) -> u32 {
+        self.start.unwrap_or(0)
+    }
+    fn fresh(&self) -> KeySetProvider {
+        match self.start {
+            None => KeySetProvider::new(self.h),
+            Some(o) => probe::build(
+                &probe::View {
+                    keys: vec![AesSivCmac512::new_random().key_bytes().to_vec()],
+                    id_offset: o,
+                    primary: 0,
+                },
+                self.h,
+            ),
+        }
+    }
+    fn tag(&self) -> String {
+        match self.start {
+            None => format!("h={};start=new", self.h),
+            Some(o) => format!("h={};start={}", self.h, o),
+        }
+    }
+}
+
+struct St {
+    prov: KeySetProvider,
+    r: u64,
+    out: Vec<std::sync::Arc<Issued>>,
+    ops: Vec<u8>,
+}
+
+impl St {
+    fn clone_state(&self) -> St {
+        St {
+            prov: probe::clone_provider(&self.prov),
+            r: self.r,
+            out: self.out.clone(),
+            ops: self.ops.clone(),
+        }
+    }
+}
+
+/// Per-worker counters (flushed into the Ctx once per configuration; a mutex round trip per
+/// decode would dominate the run time).
+#[derive(Default)]
+struct Tally {
+    /// thorough tier: re-decode every outstanding cookie and one foreign cookie per key slot
+    /// after *every* transition. Quick tier: all of them after every rotation; after an
+    /// issue (which takes `&KeySet`, a plain struct without interior mutability, so the
+    /// answers for older cookies are those already checked in the parent state) only the
+    /// cookies of the current rotation, and one foreign cookie for one slot.
+    full: bool,
+    decodes: u64,
+    issued: u64,
+    valid: u64,
+    expired: u64,
+    foreign: u64,
+}
+
+impl Tally {
+    fn flush(&self, ctx: &Ctx) {
+        ctx.add("decodes", self.decodes);
+        ctx.add("cookies_issued", self.issued);
+        ctx.add("valid_decoded", self.valid);
+        ctx.add("expired_rejected", self.expired);
+        ctx.add("foreign_rejected", self.foreign);
+    }
+}
+
+fn ops_str(ops: &[u8]) -> String {
+    ops.iter().map(|o| char::from(b'0' + *o)).collect()
+}
+
+type Key = (u64, usize, Option<u32>, BTreeSet<(u64, u8)>);
+
+fn key_of(cfg: &Cfg, s: &St) -> Key {
+    let h = cfg.h as u64;
+    let (nkeys, id_offset, _) = probe::meta(&s.prov.get());
+    // ids of outstanding (not yet merged) cookies and of the keys lie in
+    // [id_offset-(h+2), id_offset+h]; while that window touches the wrap the offset is part
+    // of the key so that pre- and post-wrap states are never merged.
+    let near = id_offset.wrapping_add(cfg.h as u32 + 1) <= 2 * cfg.h as u32 + 3;
+    (
+        s.r.min(h + 2),
+        nkeys,
+        if near { Some(id_offset) } else { None },
+        s.out.iter().map(|c| ((s.r - c.rot).min(h + 2), c.alg)).collect(),
+    )
+}
+
+/// Apply one operation to the real provider and check everything the statement says about
+/// the resulting state. Returns a canonical observation (for replay).
+fn apply(ctx: &Ctx, t: &mut Tally, cfg: &Cfg, s: &mut St, op: u8) -> String {
+    let h = cfg.h as u64;
+    s.ops.push(op);
+    let trace = || format!("seq;{};ops={}", cfg.tag(), ops_str(&s.ops));
+    let mut obs = String::new();
+    if op == 2 {
+        if let Err(p) = common::catch(|| s.prov.rotate()) {
+            ctx.violation("C26:rotate-panic", format!("rotate panicked: {p}"), trace());
+            return "rotate-panic".into();
+        }
+        s.r += 1;
+        obs.push_str("R:");
+    } else {
+        let alg = op;
+        let pat = (s.ops.len() as u8) % NPAT;
+        let s2c = key_material(alg, pat, 1);
+        let c2s = key_material(alg, pat, 2);
+        let dc = mk_cookie(alg, &s2c, &c2s);
+        let ks = s.prov.get();
+        let bytes = match common::catch(|| ks.encode_cookie(&dc)) {
+            Ok(b) => b,
+            Err(p) => {
+                ctx.violation("C26:encode-panic", format!("encode_cookie panicked: {p}"), trace());
+                return "encode-panic".into();
+            }
+        };
+        t.issued += 1;
+        let want_id = cfg.id0().wrapping_add(s.r as u32);
+        let got_id = bytes.get(0..4).map(|b| u32::from_be_bytes(b.try_into().unwrap()));
+        if got_id != Some(want_id) {
+            ctx.violation(
+                "C26:new-cookie-not-newest-key",
+                format!("cookie issued after {} rotations carries key id {got_id:?}, the newest key has id {want_id}", s.r),
+                trace(),
+            );
+        }
+        if contains(&bytes, &s2c[..16]) || contains(&bytes, &c2s[..16]) {
+            ctx.violation("C26:session-key-in-clear", "cookie contains session key bytes in clear", trace());
+        }
+        obs.push_str(&format!("I{alg}id={got_id:?}len={}:", bytes.len()));
+        // keep at most one outstanding cookie per (age, alg) (the abstraction of the key)
+        if !s.out.iter().any(|c| c.rot == s.r && c.alg == alg) {
+            s.out.push(std::sync::Arc::new(Issued { bytes, alg, s2c, c2s, rot: s.r }));
+        } else {
+            // still check that this very cookie decodes now
+            let (d, why) = decode_vs(&s.prov, &bytes, alg, &s2c, &c2s);
+            t.decodes += 1;
+            if d != Dec::Same {
+                ctx.violation("C26:valid-cookie-rejected", format!("fresh cookie does not decode to its keys: {d:?} {why}"), trace());
+            }
+        }
+    }
+    // every outstanding cookie against the model
+    for c in &s.out {
+        let age = s.r - c.rot;
+        if !t.full && op != 2 && age != 0 {
+            continue;
+        }
+        let (d, why) = decode_vs(&s.prov, &c.bytes, c.alg, &c.s2c, &c.c2s);
+        t.decodes += 1;
+        obs.push_str(match d {
+            Dec::Same => "s",
+            Dec::Differs => "d",
+            Dec::Rejected => "x",
+            Dec::Panic => "p",
+        });
+        match (d, age <= h) {
+            (Dec::Same, true) => t.valid += 1,
+            (Dec::Rejected, false) => t.expired += 1,
+            (Dec::Panic, _) => ctx.violation("C26:decode-panic", format!("decode_cookie panicked: {why}"), trace()),
+            (Dec::Differs, _) => ctx.violation(
+                "C26:decoded-keys-differ",
+                format!("cookie of age {age} (history {h}) decodes to other keys/algorithm ({why})"),
+                trace(),
+            ),
+            (Dec::Rejected, true) => ctx.violation(
+                "C26:valid-cookie-rejected",
+                format!("cookie issued {age} rotations ago is rejected although history is {h}"),
+                trace(),
+            ),
+            (Dec::Same, false) => ctx.violation(
+                "C26:expired-cookie-accepted",
+                format!("cookie issued {age} rotations ago still decodes although history is {h}"),
+                trace(),
+            ),
+        }
+    }
+    // merge cookies that are expired for good (age >= h+2): keep the first per algorithm
+    let r = s.r;
+    let mut seen = BTreeSet::new();
+    s.out.retain(|c| {
+        let a = (r - c.rot).min(h + 2);
+        a < h + 2 || seen.insert(c.alg)
+    });
+    // foreign cookies: an independent key set with the same ids, one cookie per key slot
+    let (nkeys, id_offset, _) = probe::meta(&s.prov.get());
+    for slot in 0..nkeys {
+        if !t.full && op != 2 && slot != s.ops.len() % nkeys {
+            continue;
+        }
+        let foreign = probe::build(
+            &probe::View {
+                keys: (0..nkeys).map(|_| AesSivCmac512::new_random().key_bytes().to_vec()).collect(),
+                id_offset,
+                primary: slot as u32,
+            },
+            cfg.h,
+        );
+        let alg = (slot % 2) as u8;
+        let s2c = key_material(alg, 2, 1);
+        let c2s = key_material(alg, 2, 2);
+        let fc = foreign.get().encode_cookie(&mk_cookie(alg, &s2c, &c2s));
+        let (d, why) = decode_vs(&s.prov, &fc, alg, &s2c, &c2s);
+        t.decodes += 1;
+        match d {
+            Dec::Rejected => t.foreign += 1,
+            Dec::Panic => ctx.violation("C26:decode-panic", format!("decode of foreign cookie panicked: {why}"), trace()),
+            _ => ctx.violation("C26:foreign-cookie-accepted", format!("cookie of a different key set (slot {slot}) decodes: {d:?}"), trace()),
+        }
+        obs.push(if d == Dec::Rejected { 'f' } else { 'F' });
+    }
+    obs
+}
+
+fn explore(ctx: &Ctx, cfg: Cfg) {
+    let init = St { prov: cfg.fresh(), r: 0, out: vec![], ops: vec![] };
+    let mut maxr = 0u64;
+    let mut t = Tally { full: !ctx.quick(), ..Tally::default() };
+    let mut distinct = Vec::new();
+    let stats = common::bfs(
+        vec![init],
+        |s| key_of(&cfg, s),
+        |s, _d| {
+            let mut v = Vec::with_capacity(3);
+            for op in 0..3u8 {
+                let mut n = s.clone_state();
+                apply(ctx, &mut t, &cfg, &mut n, op);
+                maxr = maxr.max(n.r);
+                if n.r >= 1 && !n.out.is_empty() {
+                    distinct.push(common::hash_of(&(cfg.h, cfg.start, key_of(&cfg, &n))));
+                }
+                v.push(n);
+            }
+            v
+        },
+        10_000,
+    );
+    t.flush(ctx);
+    ctx.distinct_many(distinct);
+    ctx.add("states", stats.states);
+    ctx.add("transitions", stats.transitions);
+    ctx.add("evaluations", stats.transitions);
+    ctx.max("max_depth", stats.max_depth);
+    ctx.max("max_rotations", maxr);
+    ctx.inc("configs");
+    if stats.fixpoint {
+        ctx.inc("configs_at_fixpoint");
+    } else {
+        ctx.cap_hit(&format!("{}: depth bound reached before fixpoint", cfg.tag()));
+    }
+    if cfg.start.is_none() || cfg.start == Some(u32::MAX) {
+        ctx.sample(format!(
+            "{}: fixpoint after depth {} with {} abstract states / {} transitions, up to {} rotations",
+            cfg.tag(), stats.max_depth, stats.states, stats.transitions, maxr
+        ));
+    }
+}
+
+// ---------------------------------------------------------------------------------
+// (b) tamper / truncation sweep
+// ---------------------------------------------------------------------------------
+
+/// Build a provider with h+1 keys (h rotations), issuing one cookie of `alg` at rotation
+/// `at` (so that its key has age h-at at the end).
+fn tamper_base(cfg: &Cfg, at: usize, alg: u8) -> (KeySetProvider, Issued) {
+    let mut p = cfg.fresh();
+    let s2c = key_material(alg, 4, 1);
+    let c2s = key_material(alg, 4, 2);
+    let mut issued = None;
+    for r in 0..=cfg.h {
+        if r == at {
+            let bytes = p.get().encode_cookie(&mk_cookie(alg, &s2c, &c2s));
+            issued = Some(Issued { bytes, alg, s2c: s2c.clone(), c2s: c2s.clone(), rot: r as u64 });
+        }
+        if r < cfg.h {
+            p.rotate();
+        }
+    }
+    (p, issued.unwrap())
+}
+
+fn tamper_case(ctx: &Ctx, cfg: &Cfg, at: usize, alg: u8, masks: &[u8]) {
+    let (p, c) = tamper_base(cfg, at, alg);
+    let base = format!("{};at={at};alg={alg}", cfg.tag());
+    let (d, _) = decode_vs(&p, &c.bytes, c.alg, &c.s2c, &c.c2s);
+    if d != Dec::Same {
+        ctx.violation("C26:valid-cookie-rejected", format!("untampered base cookie: {d:?}"), format!("tamper;{base};byte=0;mask=0"));
+        return;
+    }
+    let declared = 22 + u16::from_be_bytes([c.bytes[4], c.bytes[5]]) as usize;
+    if declared != c.bytes.len() {
+        ctx.violation("C26:declared-length", format!("cookie of {} bytes declares {declared}", c.bytes.len()), format!("tamper;{base};byte=0;mask=0"));
+    }
+    let mut t = c.bytes.clone();
+    for i in 0..declared.min(c.bytes.len()) {
+        for &m in masks {
+            t[i] ^= m;
+            let (d, why) = decode_vs(&p, &t, c.alg, &c.s2c, &c.c2s);
+            ctx.inc("evaluations");
+            ctx.inc("decodes");
+            match d {
+                Dec::Rejected => {
+                    ctx.inc("tampered_rejected");
+                    if i < 4 { ctx.inc("tampered_id_rejected") } else if i < 6 { ctx.inc("tampered_len_rejected") } else if i < 22 { ctx.inc("tampered_nonce_rejected") } else { ctx.inc("tampered_ct_rejected") }
+                }
+                Dec::Panic => ctx.violation("C26:decode-panic", format!("decode of tampered cookie panicked: {why}"), format!("tamper;{base};byte={i};mask={m}")),
+                _ => ctx.violation(
+                    "C26:tampered-cookie-accepted",
+                    format!("cookie with byte {i} ^ {m:#04x} decodes ({d:?})"),
+                    format!("tamper;{base};byte={i};mask={m}"),
+                ),
+            }
+            t[i] ^= m;
+        }
+    }
+    for l in 0..c.bytes.len() {
+        let (d, why) = decode_vs(&p, &c.bytes[..l], c.alg, &c.s2c, &c.c2s);
+        ctx.inc("evaluations");
+        ctx.inc("decodes");
+        match d {
+            Dec::Rejected => ctx.inc("truncated_rejected"),
+            Dec::Panic => ctx.violation("C26:decode-panic", format!("decode of truncated cookie panicked: {why}"), format!("trunc;{base};len={l}")),
+            _ => ctx.violation("C26:truncated-cookie-accepted", format!("first {l} of {} bytes decode ({d:?})", c.bytes.len()), format!("trunc;{base};len={l}")),
+        }
+    }
+    // observation only: bytes after the declared length are outside the statement
+    let mut ext = c.bytes.clone();
+    ext.extend([0u8; 4]);
+    if decode_vs(&p, &ext, c.alg, &c.s2c, &c.c2s).0 == Dec::Same {
+        ctx.inc("padded_cookie_still_decodes");
+    }
+    ctx.distinct(common::hash_of(&("tamper", cfg.h, cfg.start, at, alg)));
+}
+
+// ---------------------------------------------------------------------------------
+// (c) session key grid
+// ---------------------------------------------------------------------------------
+
+fn key_grid(ctx: &Ctx) {
+    let p = KeySetProvider::new(1);
+    for alg in 0..2u8 {
+        for ps in 0..NPAT {
+            for pc in 0..NPAT {
+                // salt equal for both directions when patterns are equal and constant:
+                // s2c == c2s is a legal (if odd) input
+                let s2c = key_material(alg, ps, 1);
+                let c2s = key_material(alg, pc, if ps == pc { 1 } else { 2 });
+                let bytes = p.get().encode_cookie(&mk_cookie(alg, &s2c, &c2s));
+                let (d, why) = decode_vs(&p, &bytes, alg, &s2c, &c2s);
+                ctx.inc("evaluations");
+                ctx.inc("decodes");
+                ctx.inc("grid_cases");
+                if d != Dec::Same {
+                    ctx.violation("C26:valid-cookie-rejected", format!("session keys alg={alg} s2c pattern {ps} c2s pattern {pc}: {d:?} {why}"), format!("grid;alg={alg};ps={ps};pc={pc}"));
+                }
+                // two cookies for the same keys must differ (fresh nonce) – confidentiality
+                let again = p.get().encode_cookie(&mk_cookie(alg, &s2c, &c2s));
+                if again == bytes {
+                    ctx.violation("C26:cookie-not-randomised", "two cookies for the same session are byte-identical", format!("grid;alg={alg};ps={ps};pc={pc}"));
+                }
+                if ps >= 2 && (contains(&bytes, &s2c[..16]) || contains(&bytes, &c2s[..16])) {
+                    ctx.violation("C26:session-key-in-clear", "cookie contains session key bytes in clear", format!("grid;alg={alg};ps={ps};pc={pc}"));
+                }
+                ctx.distinct(common::hash_of(&("grid", alg, ps, pc)));
+            }
+        }
+    }
+}
+
+// ---------------------------------------------------------------------------------
+// replay
+// ---------------------------------------------------------------------------------
+
+pub(super) fn field<'a>(parts: &'a [&'a str], name: &str) -> Option<&'a str> {
+    parts.iter().find_map(|p| p.strip_prefix(name).and_then(|r| r.strip_prefix('=')))
+}
+
+fn parse_cfg(parts: &[&str]) -> Option<Cfg> {
+    let h = field(parts, "h")?.parse().ok()?;
+    let start = match field(parts, "start")? {
+        "new" => None,
+        s => Some(s.parse().ok()?),
+    };
+    Some(Cfg { h, start })
+}
+
+fn replay(ctx: &Ctx, trace: &str) -> String {
+    let parts: Vec<&str> = trace.split(';').collect();
+    match parts[0] {
+        "seq" => {
+            let Some(cfg) = parse_cfg(&parts) else { return "bad trace".into() };
+            let ops = field(&parts, "ops").unwrap_or("");
+            let mut s = St { prov: cfg.fresh(), r: 0, out: vec![], ops: vec![] };
+            let mut obs = Vec::new();
+            let mut t = Tally { full: true, ..Tally::default() };
+            for ch in ops.bytes() {
+                obs.push(apply(ctx, &mut t, &cfg, &mut s, ch - b'0'));
+            }
+            obs.join("|")
+        }
+        "tamper" | "trunc" => {
+            let Some(cfg) = parse_cfg(&parts) else { return "bad trace".into() };
+            let at: usize = field(&parts, "at").and_then(|x| x.parse().ok()).unwrap_or(0);
+            let alg: u8 = field(&parts, "alg").and_then(|x| x.parse().ok()).unwrap_or(0);
+            let (p, c) = tamper_base(&cfg, at, alg);
+            let mut t = c.bytes.clone();
+            if parts[0] == "tamper" {
+                let i: usize = field(&parts, "byte").and_then(|x| x.parse().ok()).unwrap_or(0);
+                let m: u8 = field(&parts, "mask").and_then(|x| x.parse().ok()).unwrap_or(0);
+                t[i] ^= m;
+            } else {
+                let l: usize = field(&parts, "len").and_then(|x| x.parse().ok()).unwrap_or(0);
+                t.truncate(l);
+            }
+            let (d, _) = decode_vs(&p, &t, c.alg, &c.s2c, &c.c2s);
+            if d != Dec::Rejected && t != c.bytes {
+                ctx.violation("C26:tampered-cookie-accepted", format!("{d:?}"), trace);
+            }
+            format!("{d:?}")
+        }
+        "grid" => {
+            let alg: u8 = field(&parts, "alg").and_then(|x| x.parse().ok()).unwrap_or(0);
+            let ps: u8 = field(&parts, "ps").and_then(|x| x.parse().ok()).unwrap_or(0);
+            let pc: u8 = field(&parts, "pc").and_then(|x| x.parse().ok()).unwrap_or(0);
+            let p = KeySetProvider::new(1);
+            let s2c = key_material(alg, ps, 1);
+            let c2s = key_material(alg, pc, if ps == pc { 1 } else { 2 });
+            let bytes = p.get().encode_cookie(&mk_cookie(alg, &s2c, &c2s));
+            let (d, _) = decode_vs(&p, &bytes, alg, &s2c, &c2s);
+            if d != Dec::Same {
+                ctx.violation("C26:valid-cookie-rejected", format!("{d:?}"), trace);
+            }
+            format!("{d:?}")
+        }
+        _ => "unknown trace kind".into(),
+    }
+}
+
+#[test]
+fn check() {
+    let ctx = Ctx::new("C26");
+    if let Some(t) = common::replay_trace() {
+        let a = replay(&ctx, &t);
+        let b = replay(&ctx, &t);
+        common::report_replay("C26", &a, &b, ctx.violation_count() > 0);
+        return;
+    }
+    let hmax = if ctx.quick() { 3 } else { 4 };
+    ctx.rule(&format!(
+        "(a) history h in 0..={hmax}; start in {{KeySetProvider::new(h)}} + {{one key with id offset 2^32-1-d, d in 0..=h+2}}; \
+         all sequences over {{issue-256, issue-512, rotate}} explored breadth first to the fixpoint of the key (rotations sat. h+2, \
+         #keys, id offset while the id window touches the wrap, set of (cookie age sat. h+2, algorithm)); every outstanding and one \
+         foreign cookie per key slot decoded after every rotation (thorough: after every transition; quick: after an issue only the \
+         cookies of the current rotation and one foreign cookie). (b) every byte of a cookie x every single-bit mask \
+         (thorough: every non-zero xor value) and every proper prefix, for every key age 0..=h, both algorithms, ids wrapping or not. \
+         (c) algorithm x 5 s2c patterns x 5 c2s patterns round trip. Distinct & non-trivial = an abstract state with >=1 rotation and \
+         >=1 outstanding cookie, a (config, age, algorithm) tamper base, a grid cell."
+    ));
+    ctx.assume("AES-SIV behaviour is independent of the random server key values (keys are drawn by the real new_random); outcomes are compared, never key bytes of server keys");
+    ctx.assume("states with equal abstract key behave alike: the provider's behaviour depends on ids only through wrapping differences (checked by keeping the id offset in the key in a window of 2h+4 values around the wrap)");
+    ctx.assume("history lengths above the enumerated maximum behave like the enumerated ones");
+
+    // (a)
+    let mut cfgs = Vec::new();
+    for h in (0..=hmax).rev() {
+        cfgs.push(Cfg { h, start: None });
+        for d in 0..=(h as u32 + 2) {
+            cfgs.push(Cfg { h, start: Some(u32::MAX - d) });
+        }
+        cfgs.push(Cfg { h, start: Some(0x8000_0000) });
+    }
+    common::par_for(cfgs.len() as u64, 1, |i| explore(&ctx, cfgs[i as usize]));
+
+    // (b)
+    let masks: Vec<u8> = if ctx.quick() { (0..8).map(|b| 1u8 << b).collect() } else { (1..=255).collect() };
+    let mut bases = Vec::new();
+    for h in 0..=hmax.min(3) {
+        for start in [None, Some(u32::MAX - (h as u32) / 2), Some(u32::MAX)] {
+            for at in 0..=h {
+                for alg in 0..2u8 {
+                    bases.push((Cfg { h, start }, at, alg));
+                }
+            }
+        }
+    }
+    common::par_for(bases.len() as u64, 1, |i| {
+        let (cfg, at, alg) = bases[i as usize];
+        tamper_case(&ctx, &cfg, at, alg, &masks);
+    });
+    ctx.set("tamper_bases", bases.len() as u64);
+    ctx.set("tamper_masks_per_byte", masks.len() as u64);
+
+    // (c)
+    key_grid(&ctx);
+
+    ctx.exhaustive(true);
+    ctx.finish();
+}
